@@ -207,7 +207,7 @@ def check_cfg(ctx, fx, cfg):
             if not ctx.require(f is not None, "R07.4", "terminal:%s@%s" % (term, cfg), "builder terminal not found"):
                 continue
             # the loop constructors and the helpers that merely forward the actor to them (`env.launch::<P>(actor)`)
-            mk_ = graph.forwarding_closure(fx, {f_["parent"]: 1 for f_, _k in loops.find_loops(fx)}, roots, lambda g_: ctx.body(fx, g_))
+            mk_ = graph.forwarding_closure(fx, loops.maker_params(fx, "actor"), roots, lambda g_: ctx.body(fx, g_))
             is_env = lambda t, mk_=mk_: (t.get("callee") or "").startswith("environment::Environment::<A, R>::") and ((t.get("callee") or "").endswith(("from_channel", "create_loop", "create_loop_on_stream")) or t.get("callee") in mk_)
             # the wiring may sit in a function the terminal hands its builder to (spawn = spawn_owning().detach(), a shared private helper)
             wf = graph.wiring_fn(fx, term, is_env) or f
